@@ -28,6 +28,8 @@ type Result struct {
 	Errors    []ErrEntry
 	Resolvers []string // keys of resolver invocations (multiset)
 	Dirs      []string // keys of directive invocations
+	// DirsMulti: directive keys on fields that run more than one schema directive
+	DirsMulti map[string]bool
 	// classification
 	NullPropagated   int  // a null travelled through at least one non-null link
 	PropagatedToRoot bool // data is null
@@ -314,11 +316,35 @@ func builtinDirective(name string) bool {
 	return false
 }
 
-func dirTag(d *ast.Directive) string {
-	if a := d.Arguments.ForName("tag"); a != nil && a.Value != nil {
-		return a.Value.Raw
+// dirTag is what the universal directive implementation (univ.FillDirectives) puts into the key of an
+// invocation: the value of the last String-typed argument that is not null, in declaration order,
+// taken from the application or else from the argument's default.
+func (x *executor) dirTag(d *ast.Directive) string {
+	if d.Definition == nil && x.Schema.Directives[d.Name] != nil {
+		dd := *d
+		dd.Definition = x.Schema.Directives[d.Name]
+		d = &dd
 	}
-	return ""
+	if d.Definition == nil {
+		if a := d.Arguments.ForName("tag"); a != nil && a.Value != nil {
+			return a.Value.Raw
+		}
+		return ""
+	}
+	tag := ""
+	for _, ad := range d.Definition.Arguments {
+		if ad.Type.Elem != nil || ad.Type.NamedType != "String" {
+			continue
+		}
+		v := ad.DefaultValue
+		if a := d.Arguments.ForName(ad.Name); a != nil {
+			v = a.Value
+		}
+		if v != nil && v.Kind != ast.NullValue {
+			tag = v.Raw
+		}
+	}
+	return tag
 }
 
 // field resolves and completes one field. isNull reports a null result (for propagation).
@@ -326,32 +352,30 @@ func (x *executor) field(obj *ast.Definition, objKey string, fd *ast.FieldDefini
 	// schema directives on the field definition wrap the resolver (docs: "next" is the next directive
 	// in the chain or the resolver). Plans put at most one non-passing directive on an invocation.
 	if !x.SkipDirectives {
-		for _, d := range fd.Directives {
-			if builtinDirective(d.Name) {
-				continue
-			}
-			key := fpath + "@" + goDirName(d.Name) + ":" + dirTag(d)
+		eff := x.effectiveDirs(fd)
+		for _, d := range eff {
+			key := fpath + "@" + goDirName(d.Name) + ":" + x.dirTag(d)
 			x.res.Dirs = append(x.res.Dirs, key)
-		}
-		for _, d := range fd.Directives {
-			if builtinDirective(d.Name) {
-				continue
+			if len(eff) > 1 {
+				if x.res.DirsMulti == nil {
+					x.res.DirsMulti = map[string]bool{}
+				}
+				x.res.DirsMulti[key] = true
 			}
-			key := fpath + "@" + goDirName(d.Name) + ":" + dirTag(d)
+		}
+		for _, d := range eff {
+			key := fpath + "@" + goDirName(d.Name) + ":" + x.dirTag(d)
 			o := x.Plan.Dir("D:" + key)
 			switch o.Kind {
 			case plan.Error:
-				x.truncateDirsAfter(fd, d, fpath)
 				x.addErr(fpath, "directive", o.Msg)
 				x.res.DirBlocked++
 				return null(), true
 			case plan.Panic:
-				x.truncateDirsAfter(fd, d, fpath)
 				x.addErr(fpath, "panic", o.Msg)
 				x.res.DirBlocked++
 				return null(), true
 			case plan.DirNull:
-				x.truncateDirsAfter(fd, d, fpath)
 				x.res.DirBlocked++
 				if fd.Type.NonNull {
 					x.addErr(fpath, "null", "")
@@ -390,10 +414,36 @@ func (x *executor) field(obj *ast.Definition, objKey string, fd *ast.FieldDefini
 	return x.complete(fd.Type, valueKey, fpath, sels)
 }
 
-// truncateDirsAfter removes the logged invocations of the directives that are "inside" a blocking
-// one. The order of several directives is not documented, so plans only block on fields with a
-// single custom directive; this is a no-op then.
-func (x *executor) truncateDirsAfter(fd *ast.FieldDefinition, d *ast.Directive, fpath string) {}
+// effectiveDirs: the schema directives gqlgen runs around a field (codegen/field.go bindField and
+// ImplDirectives): those applied to the definition of the field's named return type, then those
+// applied to the field definition, keeping the ones whose definition names the location
+// FIELD_DEFINITION, OBJECT or INPUT_OBJECT. Which of several directives on one field is outermost is
+// not documented; plans only block on fields that have a single one (Result.DirsMulti).
+func (x *executor) effectiveDirs(fd *ast.FieldDefinition) []*ast.Directive {
+	var out []*ast.Directive
+	add := func(ds ast.DirectiveList) {
+		for _, d := range ds {
+			if builtinDirective(d.Name) {
+				continue
+			}
+			def := x.Schema.Directives[d.Name]
+			if def == nil {
+				continue
+			}
+			for _, l := range def.Locations {
+				if l == ast.LocationFieldDefinition || l == ast.LocationObject || l == ast.LocationInputObject {
+					out = append(out, d)
+					break
+				}
+			}
+		}
+	}
+	if td := x.Schema.Types[fd.Type.Name()]; td != nil {
+		add(td.Directives)
+	}
+	add(fd.Directives)
+	return out
+}
 
 func goDirName(name string) string {
 	// DirectiveRoot member names are gqlgen's ToGo(name); harness directives use single lower-case
@@ -410,6 +460,12 @@ func goDirName(name string) string {
 
 func (x *executor) complete(t *ast.Type, key, path string, sels []ast.SelectionSet) (*strictjson.Value, bool) {
 	o := x.Plan.Get(key, !t.NonNull)
+	if t.Elem == nil {
+		if def := x.Schema.Types[t.NamedType]; def != nil && def.IsAbstractType() && len(univ.PossibleObjects(x.Schema, def)) == 0 {
+			// an interface nothing implements: the only Go value there is, is nil
+			o = plan.Outcome{Kind: plan.Nil}
+		}
+	}
 	if o.Kind == plan.Nil {
 		if t.NonNull {
 			x.addErr(path, "null", "")
